@@ -2,3 +2,10 @@ import SamVerif.Props.C08b
 /-! Axiom audit of the C08 × C09 composed statements (parsed by vlib/common.py). -/
 #print axioms SamVerif.C08b.tokens_at_one_width_suffice
 #print axioms SamVerif.C08b.imports_same_up_to_merge_sort
+#print axioms SamVerif.C08b.doc_unions_agree
+#print axioms SamVerif.C08b.doc_reads_printed_tokens
+#print axioms SamVerif.C08b.layout_tokens_every_width
+#print axioms SamVerif.C08b.formatted_text_every_width
+#print axioms SamVerif.C08b.roundtrip_every_width
+#print axioms SamVerif.C08b.chain_layout_losing_a_member_counterexample
+#print axioms SamVerif.C08b.plainLeaves_ok
